@@ -45,7 +45,7 @@ LEVEL = "model_checking"
 
 NONE = 99        # NoneMark of Storage.tla
 MASKED = -1      # MaskedV
-NONE_ELEM = -2   # an UNMASKED None where an element was expected (never a legal element)
+NONE_ELEM = -2   # an unmasked None element (NoneElem of MC_Storage: legal only where None was WRITTEN)
 WEIRD = -3       # anything else that is not an element (nested array, bool, ...)
 RAISED = -9      # has_index raised
 MISSING_VAL = {"shape": [], "data": [MASKED]}
@@ -63,7 +63,7 @@ def py_key(key: list[list[int]]) -> tuple:
 def py_value(val: dict, kind: int) -> Any:
     """The Block `val` as a Python object: int (no internal shape), int64 ndarray / object ndarray / nested list."""
     if not val["shape"]:
-        return val["data"][0]
+        return None if val["data"][0] == NONE_ELEM else val["data"][0]      # a written None is an ordinary element
     if kind % 3 == 0:
         return np.array(val["data"], dtype=np.int64).reshape(val["shape"])
     a = np.empty(len(val["data"]), dtype=object)
@@ -249,12 +249,44 @@ def make_array(clsname: str, folder: Path, g: dict, keep: list):
     if clsname == REF:
         return NumpyRef(folder, shape, internal, mask)
     cls = backend_classes()[clsname.split("+")[0]]
+    if clsname == "FileArray+template":
+        # a non-default filename_template, in a folder that ALSO holds a completely written array with the default names:
+        # every observer of the custom array must follow its own template
+        if not any(isinstance(k, tuple) and k[0] == "neighbour" and k[1] == str(folder) for k in keep):
+            nb = cls(folder, shape, internal, mask)
+            for idx in np.ndindex(*shape):
+                nb.dump(idx, np.full(internal, -7, dtype=object) if internal else -7)
+            keep.append(("neighbour", str(folder)))
+        return cls(folder, shape, internal, mask, filename_template="el_{:d}.custom")
     if clsname == "SharedMemoryDictArray+mapping":
         # one Manager per worker process (a Manager per object costs a process spawn each)
         if "mgr" not in _G:
             _G["mgr"] = mp.Manager()
         return cls(folder, shape, internal, mask, mapping=_G["mgr"].dict())
     return cls(folder, shape, internal, mask)
+
+
+def child_dump(arr, key, value) -> None:
+    """dump() executed by a forked child through ITS copy of the handle (as pipefunc's pool workers do for
+    dump_in_subprocess storages); an exception in the child is re-raised here by class name."""
+    import pickle
+    r, w = os.pipe()
+    pid = os.fork()
+    if pid == 0:
+        os.close(r)
+        msg = b""
+        try:
+            pickle.loads(pickle.dumps(arr)).dump(key, value)      # the worker receives a pickled copy
+        except BaseException as ex:  # noqa: BLE001
+            msg = type(ex).__name__.encode()
+        os.write(w, msg)
+        os._exit(0)
+    os.close(w)
+    with os.fdopen(r, "rb") as fh:
+        msg = fh.read().decode()
+    os.waitpid(pid, 0)
+    if msg:
+        raise {"IndexError": IndexError, "ValueError": ValueError, "KeyError": KeyError}.get(msg, RuntimeError)(msg)
 
 
 SKIPPED = {"exc": "-", "shape": [], "data": [], "elems": []}
@@ -300,7 +332,9 @@ def replay_ops(clsname: str, g: dict, ops: list[dict], gkeys: list, obs: str, sc
         for t, op in enumerate(ops, 1):
             exc = ""
             try:
-                if op["op"] == "dump":
+                if op["op"] == "dump" and clsname.endswith("+childdump"):
+                    child_dump(arr, py_key(op["key"]), py_value(op["val"], t))
+                elif op["op"] == "dump":
                     arr.dump(py_key(op["key"]), py_value(op["val"], t))
                 elif op["op"] == "persist_reopen":
                     arr.persist()
@@ -730,7 +764,8 @@ def random_case(rng: random.Random, nops: int) -> tuple[dict, list[dict], list]:
             ops.append({"op": "persist_reopen", "key": [], "val": dict(MISSING_VAL), "exc": ""})
         else:
             ops.append({"op": "dump", "key": rand_key(rng, g["shape"]),
-                        "val": {"shape": g["internal"], "data": [1000 * t + j for j in range(1, nint + 1)]}, "exc": ""})
+                        "val": {"shape": g["internal"], "data": ([NONE_ELEM] if not g["internal"] and t % 4 == 3 else
+                                                                  [1000 * t + j for j in range(1, nint + 1)])}, "exc": ""})
     gkeys = [[[NONE, NONE, NONE]] * rank, [[0]] * rank, [[-1]] * rank] + [rand_key(rng, full) for _ in range(24)]
     return g, ops, gkeys
 
@@ -820,6 +855,10 @@ def run(ctx: Ctx) -> None:
                             jobs.append((cn + ("" if sid % (smd_every * 8) == 0 else "+mapping"), gid, ops, "full", (size, sid)))
                     else:
                         jobs.append((cn, gid, ops, "full", (size, sid)))
+                    if cn == "FileArray" and sid % 7 == 3:
+                        jobs.append((cn + "+template", gid, ops, "full", (size, sid)))
+                    if cn == "SharedMemoryDictArray" and sid % (smd_every * 2) == 1:
+                        jobs.append((cn + "+childdump", gid, ops, "full", (size, sid)))
                 jobs.append((REF, gid, ops, "full", (size, sid)))
             traces = run_many(jobs)
             lap("replay_on_classes")
@@ -854,6 +893,10 @@ def run(ctx: Ctx) -> None:
                     jobs.append((cn + "+mapping", i, ops, "sampled", sid))
             else:
                 jobs.append((cn, i, ops, "sampled", sid))
+            if cn == "FileArray" and i % 5 == 2:
+                jobs.append((cn + "+template", i, ops, "sampled", sid))
+            if cn == "SharedMemoryDictArray" and i % 20 == 5:
+                jobs.append((cn + "+childdump", i, ops, "sampled", sid))
         jobs.append((REF, i, ops, "sampled", sid))
     _G["geoms"] = geoms_r
     rtraces = run_many(jobs)
